@@ -61,6 +61,10 @@ def render(item, name):
         ser = lambda attrs: [a for a in attrs if not a["text"].startswith("#[serde") and "serde(" not in a["text"]]
         return (f"{outer}#[derive(Clone, Copy, attrdump::AttrDump)]\npub struct {name} {{\n{attrs_text(ser(ms[0]['attrs']), '    ')}    pub bytes: [u8; {LEN_EXPR[k]}],\n"
                 f"{attrs_text(ser(ms[1]['attrs']), '    ')}    pub tag: u32,\n}}\n")
+    if k == "alias_union_path":
+        return f"mod union {{ pub type Set<T> = Vec<T>; }}\n{outer}pub type {name} = union::Set<u32>;\n"
+    if k == "const_union_path":
+        return f"mod union {{ pub const FIVE: u32 = 5; }}\n{outer}pub const {name.upper()}: u32 = union::FIVE;\n"
     if k == "alias":
         return f"{outer}pub type {name} = Vec<u32>;\n"
     if k == "const":
@@ -77,9 +81,9 @@ def probe(kind, name):
         return f'(String::new(), std::mem::size_of::<{name}>(), ATTR_DUMP)'
     if kind == "generic_struct":
         return f'(serde_json::to_string(&{name}::<\'static, u32>::default()).unwrap(), std::mem::size_of::<{name}<\'static, u32>>(), ATTR_DUMP)'
-    if kind == "const":
+    if kind in ("const", "const_union_path"):
         return f'({name.upper()}.to_string(), 0usize, "")'
-    if kind == "alias":
+    if kind in ("alias", "alias_union_path"):
         return f'(serde_json::to_string(&{name}::default()).unwrap(), std::mem::size_of::<{name}>(), "")'
     return f'(serde_json::to_string(&{name}::default()).unwrap(), std::mem::size_of::<{name}>(), ATTR_DUMP)'
 
